@@ -409,6 +409,16 @@ func (env *SpecEnv) ident(name string) *Value {
 // SSA values that go/ssa associates with the variable (debug references, phis and allocs carrying
 // its name) the one defined latest on the dominator path to `at` is the reaching definition.
 func (x *Exec) resolveGoVar(fr *Frame, at *ssa.BasicBlock, name string, st *State) *Value {
+	// a variable captured by reference lives in its cell: its value at any point is what the cell holds there (the
+	// value of its latest assignment in this closure can be stale - a callee may have assigned it since)
+	for i, fv := range fr.fn.FreeVars {
+		if fv.Name() == name && i < len(fr.bind) {
+			if pt, ok := fv.Type().(*types.Pointer); ok && fr.bind[i].K == KPtr {
+				x.noteIdentKind(fr, name, "captured")
+				return x.load(st, fr.bind[i].P, pt.Elem())
+			}
+		}
+	}
 	type cand struct {
 		v      ssa.Value
 		isAddr bool
